@@ -99,15 +99,18 @@ type violation struct {
 }
 
 type world struct {
-	cfg     worldCfg
-	serv    *server.Service
-	mq      *mockMQ
-	lg      *memLogger
-	clients []*wsClient
-	truth   *truth
-	steps   []stepRec
-	viols   []violation
-	cidName map[string]string
+	mutatePct int  // percentage of service messages replaced by a structural mutation (profile mutate)
+	mrng      *rng // PRNG of the mutations
+	mutated   bool // a mutated message was delivered: only crash/stall/bad-frame checks apply
+	cfg       worldCfg
+	serv      *server.Service
+	mq        *mockMQ
+	lg        *memLogger
+	clients   []*wsClient
+	truth     *truth
+	steps     []stepRec
+	viols     []violation
+	cidName   map[string]string
 
 	framesInBase  int64
 	framesOutBase int64
@@ -492,6 +495,11 @@ func (w *world) answer(r *mockReq, label string, data []byte, err error) {
 	if w.mq.take(r.id) == nil {
 		return
 	}
+	if w.mutatePct > 0 && w.mrng != nil && data != nil && w.mrng.chance(w.mutatePct, 100) {
+		data = mutateJSON(w.mrng, data)
+		label = "malformed:" + hx(string(data))
+		w.mutated = true
+	}
 	w.mon.onAnswer(r, label, data, err)
 	w.apply(fmt.Sprintf("answer %s %s %s #%d", w.absSubject(r.subject), w.absSubject(absPayload(r.subject, r.payload, w.cname)), label, occ), func() {
 		r.cb(r.subject, data, err)
@@ -499,6 +507,10 @@ func (w *world) answer(r *mockReq, label string, data []byte, err error) {
 }
 
 func (w *world) publish(subject string, payload string) {
+	if w.mutatePct > 0 && w.mrng != nil && w.mrng.chance(w.mutatePct, 100) {
+		payload = string(mutateJSON(w.mrng, []byte(payload)))
+		w.mutated = true
+	}
 	w.mon.onPublish(subject, payload)
 	w.apply("event "+w.absSubject(subject)+" "+absEvent(subject, payload)+" "+payloadOrDash(payload), func() {
 		w.mq.publish(subject, []byte(payload))
@@ -897,4 +909,94 @@ func canonModelLine(line string) string {
 		}
 	}
 	return strings.Join(parts, " ;; ")
+}
+
+// mutateJSON returns a structural mutation of a JSON message: one node replaced by a value of
+// another shape, a key dropped or duplicated, or the text damaged. The result is what a faulty
+// service might send; the gateway must survive it (C15).
+func mutateJSON(r *rng, data []byte) []byte {
+	var v interface{}
+	if json.Unmarshal(data, &v) != nil || r.chance(1, 12) {
+		switch r.intn(4) {
+		case 0:
+			if len(data) > 1 {
+				return data[:r.intn(len(data))]
+			}
+			return []byte("{")
+		case 1:
+			return append(append([]byte{}, data...), []byte(`,{"x":1}`)...)
+		case 2:
+			return []byte("null")
+		default:
+			return []byte(`[` + string(data) + `]`)
+		}
+	}
+	repl := []interface{}{nil, "", 0, -1, 1e99, []interface{}{}, map[string]interface{}{}, "x", true, []interface{}{nil}, map[string]interface{}{"rid": nil},
+		map[string]interface{}{"rid": "m.a"}, map[string]interface{}{"rid": "m..a"}, []interface{}{nil, nil}, map[string]interface{}{"data": nil}, map[string]interface{}{"action": "delete"},
+		"system.notFound", 4294967296, -2147483649, 0.5, map[string]interface{}{"code": 1, "message": 2}, []interface{}{map[string]interface{}{}}, map[string]interface{}{"status": "x"}}
+	// count nodes
+	var count func(x interface{}) int
+	count = func(x interface{}) int {
+		n := 1
+		switch t := x.(type) {
+		case map[string]interface{}:
+			for _, c := range t {
+				n += count(c)
+			}
+		case []interface{}:
+			for _, c := range t {
+				n += count(c)
+			}
+		}
+		return n
+	}
+	target := r.intn(count(v))
+	idx := 0
+	var walk func(x interface{}) interface{}
+	walk = func(x interface{}) interface{} {
+		me := idx
+		idx++
+		if me == target {
+			switch t := x.(type) {
+			case map[string]interface{}:
+				if len(t) > 0 && r.chance(1, 3) {
+					keys := make([]string, 0, len(t))
+					for k := range t {
+						keys = append(keys, k)
+					}
+					sort.Strings(keys)
+					delete(t, keys[r.intn(len(keys))])
+					return t
+				}
+			case []interface{}:
+				if r.chance(1, 3) {
+					return append(t, nil)
+				}
+			}
+			return repl[r.intn(len(repl))]
+		}
+		switch t := x.(type) {
+		case map[string]interface{}:
+			keys := make([]string, 0, len(t))
+			for k := range t {
+				keys = append(keys, k)
+			}
+			sort.Strings(keys)
+			for _, k := range keys {
+				t[k] = walk(t[k])
+			}
+			return t
+		case []interface{}:
+			for i := range t {
+				t[i] = walk(t[i])
+			}
+			return t
+		}
+		return x
+	}
+	out, err := json.Marshal(walk(v))
+	if err != nil {
+		return []byte("null")
+	}
+	return out
 }
